@@ -10,6 +10,7 @@ import (
 	"sort"
 	"strings"
 	"sync"
+	"time"
 
 	"github.com/cockroachdb/errors"
 	"github.com/cockroachdb/pebble"
@@ -70,6 +71,7 @@ type Config struct {
 	L0FileThreshold          int
 	LBaseMaxBytes            int64
 	LevelMultiplier          int
+	FlushDelayMs             int // FlushDelayDeleteRange / FlushDelayRangeKey in ms (0 = off)
 	TargetFileSize           int64
 	BlockSize                int
 	IndexBlockSize           int
@@ -100,6 +102,7 @@ func drawConfig(rng *rand.Rand, k Knobs) Config {
 		L0FileThreshold:          pick(rng, 2, 4, 500),
 		LBaseMaxBytes:            pick(rng, int64(1), 64, 1<<10, 8<<10, 64<<10, 64<<20),
 		LevelMultiplier:          pick(rng, 0, 0, 2, 3),
+		FlushDelayMs:             pick(rng, 0, 0, 1, 600000),
 		TargetFileSize:           pick(rng, int64(512), 1<<10, 4<<10, 2<<20),
 		BlockSize:                pick(rng, 32, 128, 512, 4096),
 		IndexBlockSize:           pick(rng, 32, 256, 4096),
@@ -185,6 +188,8 @@ func MakeOptions(c Config, fs vfs.FS, ev *Events) *pebble.Options {
 		L0StopWritesThreshold:       1000,
 		LBaseMaxBytes:               c.LBaseMaxBytes,
 		LevelMultiplier:             c.LevelMultiplier,
+		FlushDelayDeleteRange:       time.Duration(c.FlushDelayMs) * time.Millisecond,
+		FlushDelayRangeKey:          time.Duration(c.FlushDelayMs) * time.Millisecond,
 		DisableAutomaticCompactions: c.DisableAuto,
 		MaxManifestFileSize:         c.MaxManifest,
 		DisableWAL:                  c.DisableWAL,
